@@ -1,9 +1,25 @@
-(* Properties_C05.v — property C05 (temporary skeleton) *)
+(* Properties_C05.v — property C05: the serial (sub-measurement by sub-measurement)
+   unscented correction returns the same corrected mean, covariance and likelihood
+   as the standard additive unscented correction.  Statements only; each is closed
+   by a lemma of C05_Proofs.
+
+   All theorems hold for every realFieldType F, every state size n, every number k
+   of sub-measurements of size s > 0 (meas = k*s), EVERY measurement function h
+   (any function on columns), every component (x, P), every (alpha, beta, kappa)
+   with c = n + lambda > 0 and wc_0 >= 0.  The noise covariance handed to the SUKF
+   (nz: one shared s x s block with the reduced constructor, or the complete
+   matrix with the full constructor) has diagonal blocks Rb 0 .. Rb (k-1), all SPD
+   (noise_blocks nz Rb); the UKF is given the block-diagonal matrix bdiag k Rb.
+   Oracles enter through their contracts: sqrt_ok (std::sqrt on non-negative
+   numbers), sq_contract (the SVD factor A of a PSD matrix satisfies A A^T = P).
+   Scope: linear layouts -- SUKFCorrection sizes its sigma set from pred_state.dim
+   (2*dim+1) whereas sigma_point() produces 2*dim_covariance+1 columns; the model
+   has dim = dim_covariance = n and nsig n = 1 + (n + n) sigma points. *)
 Require Import ZArith QArith List.
 Require Import BFL.Ops BFL.ListOps BFL.Density BFL.C05_Model.
 From mathcomp Require Import all_ssreflect all_algebra.
 Require Import BFL.MxOps BFL.LinAlg BFL.C05_Proofs.
-Import GRing.Theory.
+Import GRing.Theory Num.Theory.
 Local Open Scope ring_scope.
 
 Section C05.
@@ -13,13 +29,160 @@ Variable sq : forall n, 'M[F]_n -> 'M[F]_n.
 Variable eg : forall n, 'M[F]_n -> 'M[F]_(n,1).
 Let O := MxMat tr sq eg.
 
-Theorem C05_size_mismatch_identity n m s (w : utw O) (h : M O n 1 -> M O m 1) (y : M O m 1)
-      (nz : noise O s m) prev (pred corr_prev : mixture O n) :
-  Nat.modulo m s <> 0%N ->
-  sukf_correct w h y nz prev pred corr_prev = (pred, prev).
-Proof. exact: sukf_size_mismatch. Qed.
+(* contracts of the two square-root oracles *)
+Hypothesis sqrt_ok : forall x : F, 0 <= x -> t_sqrt tr x * t_sqrt tr x = x.
+Hypothesis sq_contract : forall d (P : 'M[F]_d), psd P -> @sq d P *m (@sq d P)^T = P.
+
+Variables (n k s : nat).
+Notation m := (k * s)%N.
+Hypothesis s_gt0 : (0 < s)%N.
+
+(* (i) the serial accumulation is the block sum: C^-1 = I + Y^T R^-1 Y, d = Y^T R^-1 nu,
+   for ANY Y, nu (every block only needs to be invertible) *)
+Theorem C05_block_sum L (Y : M O m L) (nu : M O m 1) (nz : noise O s m) (Rb : nat -> 'M[F]_s) :
+  noise_blocks nz Rb -> (forall j, (j < k)%N -> Rb j \in unitmx) ->
+  sukf_accum Y nu nz =
+  (1%:M + Y^T *m invmx (bdiag k Rb) *m Y, Y^T *m invmx (bdiag k Rb) *m nu).
+Proof. by move=> Hnz uR; exact: sukf_accum_blocks. Qed.
+
+(* (ii), algebraic core: X (I + Y^T R^-1 Y)^-1 X^T = X X^T - X Y^T (Y Y^T + R)^-1 Y X^T *)
+Theorem C05_serial_cov_identity a b L (X : 'M[F]_(a, L)) (Y : 'M[F]_(b, L)) (R : 'M[F]_b) : spd R ->
+  X *m invmx (1%:M + Y^T *m invmx R *m Y) *m X^T =
+  X *m X^T - X *m Y^T *m invmx (Y *m Y^T + R) *m Y *m X^T.
+Proof. exact: serial_cov_identity. Qed.
+
+(* (iii), algebraic core: the push-through identity *)
+Theorem C05_push_through b L (Y : 'M[F]_(b, L)) (R : 'M[F]_b) : spd R ->
+  invmx (1%:M + Y^T *m invmx R *m Y) *m (Y^T *m invmx R) = Y^T *m invmx (Y *m Y^T + R).
+Proof. exact: serial_push_through. Qed.
+
+Variables (alpha beta kappa : F).
+Let w : utw O := @ut_weights O n alpha beta kappa.
+Hypothesis c_gt0 : 0 < utc w.
+Hypothesis wc0_ge0 : 0 <= wc0 w.
+
+Variables (h : M O n 1 -> M O m 1) (y : M O m 1) (nz : noise O s m) (Rb : nat -> 'M[F]_s).
+Hypothesis Hnz : noise_blocks nz Rb.
+Hypothesis spdRb : forall j, (j < k)%N -> spd (Rb j).
+
+(* the weighted state offsets reproduce the prior covariance: X X^T = P *)
+Theorem C05_sigma_cov (x : M O n 1) (P : M O n n) : psd (P : 'M[F]_n) ->
+  Xw w x P *m (Xw w x P)^T = P.
+Proof. exact: step_sigma_cov. Qed.
+
+(* (ii) covariance *)
+Theorem C05_cov (x : M O n 1) (P : M O n n) : psd (P : 'M[F]_n) ->
+  so_cov (sukf_correct_comp w h y nz x P) =
+  uo_cov (ukf_correct_comp w h y (bdiag k Rb : M O m m) x P).
+Proof. exact: step_comp_cov. Qed.
+
+(* (iii) mean (no condition on P or on the SVD factor) *)
+Theorem C05_mean (x : M O n 1) (P : M O n n) :
+  so_mean (sukf_correct_comp w h y nz x P) =
+  uo_mean (ukf_correct_comp w h y (bdiag k Rb : M O m m) x P).
+Proof. exact: step_comp_mean. Qed.
+
+(* (iv) likelihood: the UVR (Woodbury + determinant lemma) density of getLikelihood()
+   equals N(y; ybar, Pyy) of UKFCorrection::getLikelihood() -- proved here for the
+   call SUKFCorrection makes (one column, U = Y, V = Y^T), not taken from C15 *)
+Theorem C05_likelihood (x : M O n 1) (P : M O n n) :
+  sukf_likelihood_comp nz (sukf_correct_comp w h y nz x P) =
+  ukf_likelihood_comp (ukf_correct_comp w h y (bdiag k Rb : M O m m) x P).
+Proof. exact: (@step_comp_likelihood F tr sq eg sqrt_ok n k s alpha beta kappa h y nz Rb s_gt0 c_gt0 wc0_ge0 Hnz spdRb x P). Qed.
+
+(* the matrices the two algorithms invert are invertible (invmx's totalisation is not used) *)
+Theorem C05_Cinv_invertible (x : M O n 1) (P : M O n n) :
+  (sukf_accum (so_Y (sukf_correct_comp w h y nz x P))
+              (so_innov (sukf_correct_comp w h y nz x P)) nz).1 \in unitmx.
+Proof. exact: (@step_Cinv_unit F tr sq eg n k s alpha beta kappa h y nz Rb s_gt0 Hnz spdRb x P). Qed.
+
+Theorem C05_Pyy_invertible (x : M O n 1) (P : M O n n) :
+  uo_Pyy (ukf_correct_comp w h y (bdiag k Rb : M O m m) x P) \in unitmx.
+Proof. exact: (@step_Pyy_unit F tr sq eg sqrt_ok n k s alpha beta kappa h y Rb c_gt0 wc0_ge0 spdRb x P). Qed.
+
+(* the whole step on a mixture: same components (mean, covariance) in the same order,
+   the weights of the output object kept, same likelihood vector *)
+Theorem C05_step_equals_ukf (prev : members O n m) (pred corr_prev : mixture O n) :
+  (forall c, List.In c (mix_comps pred) -> psd (c.2 : 'M[F]_n)) ->
+  (sukf_correct w h y nz prev pred corr_prev).1 =
+    (ukf_correct w h y (bdiag k Rb : M O m m) pred corr_prev).1 /\
+  sukf_likelihood nz (sukf_correct w h y nz prev pred corr_prev).2 =
+    Some (List.map (@ukf_likelihood_comp O n m)
+                   (ukf_correct w h y (bdiag k Rb : M O m m) pred corr_prev).2).
+Proof. exact: (@sukf_step_is_ukf F tr sq eg sqrt_ok n k s alpha beta kappa h y nz Rb s_gt0 c_gt0 wc0_ge0 Hnz spdRb sq_contract prev pred corr_prev). Qed.
+
+(* (v) reduced constructor (one shared block) = full constructor with equal blocks:
+   the whole step and the likelihood, for any weights, any h, no premise on R0 *)
+Theorem C05_reduced_eq_full (w' : utw O) (R0 : 'M[F]_s) prev (pred corr_prev : mixture O n) :
+  sukf_correct w' h y (@NoiseReduced O s m R0) prev pred corr_prev =
+  sukf_correct w' h y (@NoiseFull O s m (bdiag k (fun _ => R0))) prev pred corr_prev.
+Proof. exact: sukf_correct_reduced. Qed.
+
+Theorem C05_reduced_eq_full_likelihood (R0 : 'M[F]_s) (mb : members O n m) :
+  sukf_likelihood (@NoiseReduced O s m R0) mb =
+  sukf_likelihood (@NoiseFull O s m (bdiag k (fun _ => R0))) mb.
+Proof. exact: sukf_likelihood_reduced. Qed.
+
 End C05.
 
-Example C05_ex : Nat.modulo 7 3 <> 0%N. Proof. by []. Qed.
+(* (vi) a measurement size that is not a multiple of the block size: the output is
+   the predicted belief (components AND weights), the member state is untouched *)
+Theorem C05_size_mismatch_identity (F : realFieldType) (tr : Transc F)
+        (sq : forall n, 'M[F]_n -> 'M[F]_n) (eg : forall n, 'M[F]_n -> 'M[F]_(n,1))
+        n m' s (w : utw (MxMat tr sq eg)) (h : M (MxMat tr sq eg) n 1 -> M (MxMat tr sq eg) m' 1)
+        (y : M (MxMat tr sq eg) m' 1) (nz : noise (MxMat tr sq eg) s m') prev
+        (pred corr_prev : mixture (MxMat tr sq eg) n) :
+  Nat.modulo m' s <> 0%N ->
+  sukf_correct w h y nz prev pred corr_prev = (pred, prev).
+Proof. exact: sukf_size_mismatch. Qed.
 
+(* ---- non-vacuity ---- *)
+(* the diagonal blocks of bdiag are the given blocks (so "noise_blocks (NoiseFull R) Rb"
+   says what it should), and SPD blocks exist in every size *)
+Example C05_bdiag_blocks (F : realFieldType) s k (Rb : nat -> 'M[F]_s) j : (j < k)%N ->
+  dblk s j (bdiag k Rb) = Rb j.
+Proof. exact: dblk_bdiag. Qed.
+
+Example C05_premises_satisfiable (F : realFieldType) s k :
+  (forall j, (j < k)%N -> spd ((fun _ => 1%:M) j : 'M[F]_s)) /\ psd (1%:M : 'M[F]_s).
+Proof. by split=> [j _|]; [exact: spd1 | apply: spd_psd; exact: spd1]. Qed.
+
+(* the std::sqrt contract holds for Num.sqrt in every real closed field *)
+Example C05_sqrt_contract_rcf (K : rcfType) (x : K) : 0 <= x -> Num.sqrt x * Num.sqrt x = x.
+Proof. by move=> x0; rewrite -expr2 sqr_sqrtr. Qed.
+
+(* the executable instance of the same model over exact rationals: serial accumulation
+   over two DIFFERENT 2x2 blocks equals I + Y^T R^-1 Y, d = Y^T R^-1 nu computed with
+   the full inverse, and the reduced constructor equals the full one with equal blocks *)
+Definition QM := ListMat QOps (fun _ A => A) (fun _ A => A).
+Example C05_concrete_Q :
+  let Y := [:: [:: 1#1; 2#1; 0#1]; [:: 0#1; 1#1; 1#1]; [:: 3#1; -1#1; 2#1]; [:: 1#2; 0#1; 1#1]]%Q in
+  let nu := [:: [:: 1#1]; [:: -1#1]; [:: 2#1]; [:: 1#3]]%Q in
+  let R := [:: [:: 2#1; 1#1; 0#1; 0#1]; [:: 1#1; 3#1; 0#1; 0#1];
+               [:: 0#1; 0#1; 1#1; 1#2]; [:: 0#1; 0#1; 1#2; 4#1]]%Q in
+  let R0 := [:: [:: 2#1; 1#1]; [:: 1#1; 3#1]]%Q in
+  let RR := [:: [:: 2#1; 1#1; 0#1; 0#1]; [:: 1#1; 3#1; 0#1; 0#1];
+                [:: 0#1; 0#1; 2#1; 1#1]; [:: 0#1; 0#1; 1#1; 3#1]]%Q in
+  let acc := @sukf_accum QM 2 4 3 Y nu (@NoiseFull QM 2 4 R) in
+  let Ri := @minv QM 4 R in
+  let YtRi := @mmul QM 3 4 4 (@mtr QM 4 3 Y) Ri in
+  let accr := @sukf_accum QM 2 4 3 Y nu (@NoiseReduced QM 2 4 R0) in
+  let accf := @sukf_accum QM 2 4 3 Y nu (@NoiseFull QM 2 4 RR) in
+  qmx_eqb (fst acc) (@madd QM 3 3 (@mid QM 3) (@mmul QM 3 4 3 YtRi Y))
+  && qmx_eqb (snd acc) (@mmul QM 3 4 1 YtRi nu)
+  && qmx_eqb (fst accr) (fst accf) && qmx_eqb (snd accr) (snd accf) = true.
+Proof. vm_compute. reflexivity. Qed.
+
+Print Assumptions C05_block_sum.
+Print Assumptions C05_serial_cov_identity.
+Print Assumptions C05_push_through.
+Print Assumptions C05_sigma_cov.
+Print Assumptions C05_cov.
+Print Assumptions C05_mean.
+Print Assumptions C05_likelihood.
+Print Assumptions C05_Cinv_invertible.
+Print Assumptions C05_Pyy_invertible.
+Print Assumptions C05_step_equals_ukf.
+Print Assumptions C05_reduced_eq_full.
+Print Assumptions C05_reduced_eq_full_likelihood.
 Print Assumptions C05_size_mismatch_identity.
